@@ -50,9 +50,21 @@ def make_td(spec, batch):
 
 
 def make_env(e):
+    import types
+
     mod = importlib.import_module(e["module"])
     cls = getattr(mod, e["cls"])
-    return cls(**e.get("kwargs", {}))
+    kw = dict(e.get("kwargs", {}))
+    if "fake_generator" in kw:  # environments whose constructors download chip data (DPP / MDPP): build around them
+        from rl4co.envs.common.base import RL4COEnvBase
+
+        g = types.SimpleNamespace(**kw.pop("fake_generator"))
+        env = object.__new__(cls)
+        RL4COEnvBase.__init__(env, **kw)
+        env.__dict__.update(generator=g, max_decaps=g.max_decaps, size=g.size, reward_type="minmax")
+        env._make_spec(g)
+        return env
+    return cls(**kw)
 
 
 def do_episode(req):
